@@ -125,12 +125,23 @@ partial def parseStmts (h : IO.FS.Stream) (hist : Hist) (depth : Nat) : IO (Opti
   let mut hist := hist
   let mut ok := true
   let mut prevCond : Option Nat := none
+  let mut arms : Option Nat := none     -- ELSEIF / ELSE IF arms of the chain that is open at this level
   repeat
     let line ← h.getLine
     if line.isEmpty then break
     let k := toks line
     let (hd, k) := k.next
-    if hd == "}" || hd == "endprog" then break
+    if hd == "}" || hd == "endprog" then
+      if let some n := arms then hist := hist.bump s!"chain:{n}-arms"
+      break
+    -- else-chain shapes: number of ELSEIF / ELSE IF arms, with or without a final ELSE
+    if hd == "EI" || hd == "E2" then arms := arms.map (· + 1)
+    else if hd == "EL" then
+      if let some n := arms then hist := hist.bump s!"chain:{n}-arms+else"
+      arms := none
+    else
+      if let some n := arms then hist := hist.bump s!"chain:{n}-arms"
+      arms := if hd == "IF" then some 0 else none
     hist := hist.bump hd |>.bump s!"depth{depth}"
     if hd != "IF" && hd != "EI" && hd != "E2" then prevCond := none
     if hd == "RG" || hd == "MW" then hist := hist.bump s!"clocked-at-depth{depth}"
@@ -296,6 +307,9 @@ partial def loop (h : IO.FS.Stream) (d : D) (c : Case) : IO D := do
     let marks := k2.t.toList.drop k2.i
     let d := if marks.contains "alias" then { d with hist := d.hist.bump "pattern:alias-cache-key" } else d
     -- `intlit`: width-less variables (integer literals / zext / oext) with wider / narrower / equal re-assignments
+    -- `macros`: the harness executed the program through the real IF / ELSE / ELSEIF macros; `chains`: else-chain pattern seed
+    let d := if marks.contains "macros" then { d with hist := d.hist.bump "exec:real-macros" } else { d with hist := d.hist.bump "exec:hand-expanded-scopes" }
+    let d := if marks.contains "chains" then { d with hist := d.hist.bump "pattern:else-chains" } else d
     let d := if marks.contains "enable" then { d with hist := d.hist.bump "pattern:enable-scopes" } else d
     let d := if marks.contains "intlit" then { d with hist := d.hist.bump "pattern:integer-literal-variables" } else d
     loop h { d with cases := d.cases + 1 } { id := id }
